@@ -83,7 +83,7 @@ def g_rt_mir(ctx):
 
 def g_rt_syn(ctx):
     t = _rt_trees(ctx)
-    return [rules_rt.rule_uf(t), rules_rt.rule_sib(t), rules_rt.rule_prune(t), rules_rt.rule_nav(t), rules_rt.rule_leaf(t), rules_rt.rule_set(t)]
+    return [rules_rt.rule_uf(t), rules_rt.rule_sib(t), rules_rt.rule_prune(t), rules_rt.rule_nav(t), rules_rt.rule_leaf(t), rules_rt.rule_set(t), rules_rt.rule_mirror(t)]
 
 
 def g_prune_use(ctx):
@@ -174,6 +174,7 @@ RULE_GROUP = {
     "M-FUNCDOM": "cc_misc", "M-EMIT": "cc_misc", "M-COMPALL": "cc_misc", "M-DETRT": "rt_det", "T-X": "x", "T-DET": "x", "T-TYPECHECK": "typecheck",
     "M-MAPFREE": "rt_mir", "M-FREEZE": "rt_mir", "M-UNSAFE": "rt_mir", "M-CBORDER": "rt_mir", "M-LEN": "rt_mir", "M-SIZE": "rt_mir",
     "M-BAL": "rt_mir", "M-SHARE": "rt_mir", "M-SYM": "rt_mir", "M-KAHN": "rt_mir", "M-UF": "rt_syn", "S-SIB": "rt_syn", "S-PRUNE": "rt_syn", "S-NAV": "rt_syn", "S-LEAF": "rt_syn", "S-SET": "rt_syn",
+    "S-MIRROR": "rt_syn",
     "T-API": "api", "T-ALLOC": "api", "T-ENUM": "api",
 }
 
@@ -201,7 +202,7 @@ PROPERTIES = {
     "C04": {"rules": ["T-FAM", "T-INS", "T-MOVE", "T-CANON", "T-DIAG", "T-DIRTY", "T-API", "T-ENUM", "T-MOR", "S-SIB", "S-LEAF", "S-NAV", "S-SET"], "level": "translation_validation"},
     "C05": {"rules": ["T-API", "T-INS", "M-UF", "S-SIB", "S-LEAF", "S-NAV", "S-SET"], "level": "other"},
     "C08": {"rules": ["S-SIB", "S-PRUNE", "S-LEAF", "S-SET", "T-PRUNE-USE", "M-FREEZE", "M-UNSAFE", "M-MAPFREE", "M-SHARE", "M-CBORDER"], "level": "other"},
-    "C14": {"rules": ["M-FREEZE", "M-UNSAFE", "M-MAPFREE", "M-SHARE", "M-CBORDER", "M-LEN", "M-SIZE", "M-BAL", "S-NAV", "S-SET"], "level": "other"},
+    "C14": {"rules": ["M-FREEZE", "M-UNSAFE", "M-MAPFREE", "M-SHARE", "M-CBORDER", "M-LEN", "M-SIZE", "M-BAL", "S-NAV", "S-SET", "S-MIRROR"], "level": "other"},
     # of T-MOR only the clauses about the call of the topological sort concern C18 (how its output is used is C17)
     "C18": {"only_keys": {"T-MOR": ["T-MOR:recompute:toposort-"]}, "rules": ["M-SYM", "M-KAHN", "T-MOR"], "level": "other"},
     # termination: of the rules about canonicalize / move_new_to_old only the clauses about clearing what is_dirty reads
@@ -233,4 +234,5 @@ FLOORS = {
     ("M-DIGEST", "quick"): 23, ("M-FREEZE", "quick"): 29, ("M-EMIT", "quick"): 13, ("M-PAR", "quick"): 8, ("M-MAPFREE", "quick"): 700,
     ("M-UNSAFE", "quick"): 700, ("M-SYM", "quick"): 3, ("M-UF", "quick"): 4, ("M-LEN", "quick"): 4, ("M-DIRTAINT", "quick"): 3,
     ("M-FUNCDOM", "quick"): 2, ("M-SHARE", "quick"): 14, ("S-NAV", "quick"): 12, ("S-LEAF", "quick"): 11, ("S-SET", "quick"): 8,
+    ("S-MIRROR", "quick"): 11,   # 10 twin pairs + the reflection-is-not-identity witness: all of them, counted by hand
 }
